@@ -552,9 +552,17 @@ pub fn minimize_f32(x: f32, lo: f32, hi: f32, fails: impl Fn(f32) -> bool) -> f3
 /// images. `in_domain` keeps fed-back values inside the property's input domain.
 pub fn correlate_px(px: &mut [[f32; 3]], seed: u64, feedback: Option<&dyn Fn([f32; 3]) -> Option<[f32; 3]>>, in_domain: &dyn Fn([f32; 3]) -> bool) {
     let mut e = Expand(seed ^ 0xC0_44E1);
+    let mut mode = 9u64;
+    let mut left = 0u64;
     for i in 1..px.len() {
+        if left == 0 {
+            // a mode is kept for a short run, so that chains (slow ramps, repeated feedback) occur
+            mode = e.below(12);
+            left = 1 + e.below(6);
+        }
+        left -= 1;
         let prev = px[i - 1];
-        match e.below(10) {
+        match mode {
             0 => px[i] = prev,
             1 => {
                 // share two components
@@ -582,6 +590,21 @@ pub fn correlate_px(px: &mut [[f32; 3]], seed: u64, feedback: Option<&dyn Fn([f3
                 let r = [prev[1], prev[2], prev[0]];
                 if in_domain(r) {
                     px[i] = r;
+                }
+            }
+            6 | 7 => {
+                // slow ramp: the previous pixel nudged by 0..2 ulp per component (gradients, deep shadows)
+                let mut q = prev;
+                for c in q.iter_mut() {
+                    let d = e.below(5) as i32 - 2;
+                    let b = c.to_bits() as i64 + if mode == 6 { d.unsigned_abs() as i64 } else { d as i64 };
+                    let v = f32::from_bits(b.clamp(0, 0x7F7F_FFFF) as u32);
+                    if c.is_sign_positive() {
+                        *c = v;
+                    }
+                }
+                if in_domain(q) {
+                    px[i] = q;
                 }
             }
             _ => {}
